@@ -212,3 +212,37 @@ func checkWrappedComparisons(c *core.Ctx) {
 		}
 	}
 }
+
+// R03.28: a lane mask result is written whole.
+func checkMaskWrittenWhole(c *core.Ctx) {
+	st := c.Rule("R03.28", "a per-lane mask result (carry-out, borrow-out, compare result) is fully written: VCC and SDST are defined for all 64 lanes with zero for the lanes that are switched off in EXEC, so the value given to SetVCC (or written to Inst.SDst) by a handler that accumulates it in a lane loop starts from the constant 0, not from the previous VCC - a handler that starts from state.VCC() leaves stale bits of inactive lanes, which a later s_cbranch_vccnz / v_addc of a differently masked region consumes", 40)
+	for _, rel := range []string{emuPkg, cdna3Pkg} {
+		for _, fn := range c.SrcFuncs(rel) {
+			for _, b := range fn.Blocks {
+				for _, in := range b.Instrs {
+					cc := core.CallOf(in)
+					if cc == nil || !cc.IsInvoke() || cc.Method.Name() != "SetVCC" || len(cc.Args) != 1 {
+						continue
+					}
+					phi, ok := cc.Args[0].(*ssa.Phi)
+					if !ok {
+						continue
+					}
+					// the loop-carried accumulator: find its initial values (edges that are not themselves derived from the phi)
+					st.Instances++
+					c.MarkAnalysed(fn)
+					bad := false
+					for _, e := range phi.Edges {
+						if call, ok := e.(*ssa.Call); ok && call.Call.IsInvoke() && call.Call.Method.Name() == "VCC" {
+							bad = true
+						}
+					}
+					st.Ob(!bad)
+					if bad {
+						c.ReportAt("R03.28", fn, in.Pos(), "mask-accumulated-from-old-vcc", core.FuncName(fn)+" builds the new VCC starting from the old VCC and only updates the bits of active lanes: with EXEC = 0x1 and VCC = 0xFF00 before, v_addc_co_u32 leaves VCC = 0xFF00 | carry instead of just the carry; the GCN3 sibling and the ISA (\"VCC is always fully written\") give zero for inactive lanes")
+					}
+				}
+			}
+		}
+	}
+}
